@@ -1,3 +1,4 @@
 import RuschmGen.Grammar
 import RuschmGen.BaseLib
 import RuschmGen.WriteLib
+import RuschmGen.Builtins
